@@ -363,9 +363,18 @@ QFORMS = ['namespace="##any"', 'namespace="##other"', 'notNamespace="urn:a"', 'n
 PROBES = [('t:b', TNS), ('t:c', TNS), ('t:zz', TNS), ('a:x', 'urn:a'), ('b:x', 'urn:b'), ('x', '')]
 
 
-def alias_schema(g, local, with_user):
-    user = ('<xs:complexType name="user"><xs:attributeGroup ref="t:g"/><xs:anyAttribute %s processContents="skip"/></xs:complexType>'
-            '<xs:element name="u" type="t:user"/>' % local) if with_user else ''
+QFORMS10 = ['namespace="##any"', 'namespace="##other"', 'namespace="urn:a"', 'namespace="##local urn:b"', 'namespace="##targetNamespace"']
+
+
+def alias_schema(g, local, with_user, mode='local'):
+    if mode == 'ext':
+        # the other user extends a type that has its own wildcard and takes the group's wildcard by reference only
+        user = ('<xs:complexType name="base"><xs:anyAttribute %s processContents="skip"/></xs:complexType>'
+                '<xs:complexType name="user"><xs:complexContent><xs:extension base="t:base"><xs:attributeGroup ref="t:g"/>'
+                '</xs:extension></xs:complexContent></xs:complexType><xs:element name="u" type="t:user"/>' % local) if with_user else ''
+    else:
+        user = ('<xs:complexType name="user"><xs:attributeGroup ref="t:g"/><xs:anyAttribute %s processContents="skip"/></xs:complexType>'
+                '<xs:element name="u" type="t:user"/>' % local) if with_user else ''
     return ('<xs:schema xmlns:xs="http://www.w3.org/2001/XMLSchema" targetNamespace="%s" xmlns:t="%s">'
             '<xs:attribute name="b" type="xs:string"/><xs:attribute name="c" type="xs:string"/>'
             '<xs:attributeGroup name="g"><xs:anyAttribute %s processContents="skip"/></xs:attributeGroup>%s'
@@ -378,7 +387,8 @@ def subject_alias(case):
     out = {}
     for with_user in (False, True):
         try:
-            s = xmlschema.XMLSchema11(alias_schema(case['g'], case['local'], with_user))
+            cls = xmlschema.XMLSchema10 if case.get('version') == '1.0' else xmlschema.XMLSchema11
+            s = cls(alias_schema(case['g'], case['local'], with_user, case.get('mode', 'local')))
         except Exception as e:  # noqa
             out[str(with_user)] = 'ERR:' + common.exc_class(e)
             continue
@@ -393,8 +403,8 @@ def subject_alias(case):
 def check_alias(ctx, cases):
     impl = common.pool_map(subject_alias, cases)
     for c, o in zip(cases, impl):
-        base = dict(c, kind='alias', impl=o, xsd=alias_schema(c['g'], c['local'], True))
-        ctx.count(('alias', c['g'], c['local']), nontrivial=c['g'] != c['local'])
+        base = dict(c, kind='alias', impl=o, xsd=alias_schema(c['g'], c['local'], True, c.get('mode', 'local')))
+        ctx.count(('alias', c['g'], c['local'], c.get('mode', 'local'), c.get('version', '1.1')), nontrivial=c['g'] != c['local'])
         if 'harness_exception' in o:
             ctx.violation('subject failed: %s' % o['harness_exception'], base, no_input=True)
             continue
@@ -402,8 +412,10 @@ def check_alias(ctx, cases):
             continue    # a combination the schema class refuses: not judged
         if o['False'] != o['True']:
             ctx.violation('the wildcard of an attribute group (%s) admits %s when the group is used by one type only, and %s '
-                          'once another type combines the group with its own wildcard (%s): a combination must not change its operands'
-                          % (c['g'], dict(zip([p[0] for p in PROBES], o['False'])), dict(zip([p[0] for p in PROBES], o['True'])), c['local']), base)
+                          'once another type %s (%s, XSD %s): a combination must not change its operands'
+                          % (c['g'], dict(zip([p[0] for p in PROBES], o['False'])), dict(zip([p[0] for p in PROBES], o['True'])),
+                             'extends a base type with this wildcard and references the group' if c.get('mode') == 'ext'
+                             else 'combines the group with its own wildcard', c['local'], c.get('version', '1.1')), base)
 
 
 def run(ctx):
@@ -432,7 +444,8 @@ def run(ctx):
     check_e2e(ctx, e2e)
     cross = [{'version': v, 'i': i, 'j': j} for v in ('1.0', '1.1') for i in range(len(forms(v == '1.1'))) for j in range(len(forms(v == '1.1')))]
     check_cross(ctx, cross)
-    check_alias(ctx, [{'g': g, 'local': l} for g in QFORMS for l in QFORMS])
+    check_alias(ctx, [{'g': g, 'local': l, 'mode': m, 'version': '1.1'} for g in QFORMS for l in QFORMS for m in ('local', 'ext')] +
+                [{'g': g, 'local': l, 'mode': m, 'version': '1.0'} for g in QFORMS10 for l in QFORMS10 for m in ('local', 'ext')])
     ctx.extra['cross_namespace_pairs'] = len(cross)
     ctx.extra['component_pairs'] = len(cases)
     ctx.extra['end_to_end_schemas'] = len(e2e)
@@ -446,7 +459,7 @@ def replay(ctx, case):
     if case.get('kind') == 'cross':
         check_cross(ctx, [{k: case[k] for k in ('version', 'i', 'j')}])
     elif case.get('kind') == 'alias':
-        check_alias(ctx, [{k: case[k] for k in ('g', 'local')}])
+        check_alias(ctx, [{k: case[k] for k in ('g', 'local', 'mode', 'version') if k in case}])
     elif case.get('kind') == 'e2e':
         check_e2e(ctx, [{k: case[k] for k in ('version', 'mode', 'i', 'j')}])
     else:
